@@ -17,6 +17,7 @@ open ZnVerif.Properties.C03
 -- statements, blocks, declarations, programs (Properties/C03Stmt.lean)
 #print axioms parse_expression_roundtrip_layout
 #print axioms parse_simple_statement_roundtrip
+#print axioms parse_simple_statement_semicolon
 #print axioms parse_statement_roundtrip
 #print axioms parse_block_roundtrip
 #print axioms parse_body_roundtrip
